@@ -56,7 +56,7 @@ PROPS = {
     ),
 }
 PROBES = {'C04': ['ghost_particles_present', 'periodic_domain', 'two_arrays_different_steppers', 'update_nnps_false', 'second_equation_set',
-                  'py_stage_hook', 'py_hook_injects_particles', 'same_stepper_class_different_parameters', 'py_hook_reads_other_array', 'h_grows_during_step', 'empty_array', 'sourceless_equation_set', 'callback_object_with_false_truth_value', 'same_named_integrator_class_compiled_before', 'three_equation_sets', 'first_array_stepper_lacks_stages', 'several_steps', 'noncontiguous_times', 't0_nonzero', 'sim_schedule', 'shipped_stepper', 'history_compared']}
+                  'py_stage_hook', 'py_hook_injects_particles', 'same_stepper_class_different_parameters', 'py_hook_reads_other_array', 'h_grows_during_step', 'empty_array', 'sourceless_equation_set', 'callback_object_with_false_truth_value', 'callback_bound_method_of_a_temporary', 'same_named_integrator_class_compiled_before', 'three_equation_sets', 'first_array_stepper_lacks_stages', 'several_steps', 'noncontiguous_times', 't0_nonzero', 'sim_schedule', 'shipped_stepper', 'history_compared']}
 
 
 def needs_isolation(sc):
@@ -417,7 +417,14 @@ def execute(sc, prop):
             return orig_ud()
         integ.compute_accelerations = ca
         integ.update_domain = ud
-        if int(sc.get('sched_seed', 0)) % 2:
+        if int(sc.get('sched_seed', 0)) % 3 == 2:
+            # a bound method of an object nobody else refers to
+            class _Owner(object):
+                def record(self, t, dt, stage):
+                    log.append(('post', t, dt, int(stage)))
+            integ.set_post_stage_callback(_Owner().record)
+            probe('callback_bound_method_of_a_temporary')
+        elif int(sc.get('sched_seed', 0)) % 3 == 1:
             # any callable is a legal callback, also one whose truth value is False (here: an empty list subclass)
             class _Recorder(list):
                 def __call__(self, t, dt, stage):
